@@ -34,7 +34,10 @@ def post_selection(draw, n_modes, max_photons):
                                    min_size=1, max_size=2))
             rules.append([sorted(modes), sorted(counts)])
         return {"rules": rules, "multi": False}
-    pk = draw(st.sampled_from(["max-le", "mode-ne", "total-in"]))
+    pk = draw(st.sampled_from(["max-le", "mode-ne", "total-in", "state-api"]))
+    if pk == "state-api":
+        # a predicate written against the documented argument type (State): uses n_photons / n_modes / slicing
+        return {"pred": ["state-api", draw(st.integers(0, max(1, max_photons))), draw(st.integers(0, n_modes - 1))]}
     if pk == "max-le":
         return {"pred": ["max-le", draw(st.integers(1, 2))]}
     if pk == "mode-ne":
@@ -57,6 +60,8 @@ def accepts(ps, s) -> bool:
         return s[p[1]] != p[2]
     if p[0] == "total-in":
         return sum(s[m] for m in p[1]) in p[2]
+    if p[0] == "state-api":
+        return sum(s) >= p[1] or sum(s[p[2]:]) == 0
     raise ValueError(p)
 
 
@@ -79,5 +84,8 @@ def to_real(ps):
     if p[0] == "mode-ne":
         m, k = p[1], p[2]
         return lambda s: s[m] != k
+    if p[0] == "state-api":
+        k, m = p[1], p[2]
+        return lambda s: s.n_photons >= k or s[m:].n_photons == 0
     modes, counts = list(p[1]), list(p[2])
     return lambda s: sum(s[m] for m in modes) in counts
